@@ -89,6 +89,29 @@ namespace CDNS {
         explicit BlockTable() {}
 
         /**
+         * @brief Copy constructor. The keys of the reverse index reference items of the table
+         * they belong to, so the index is rebuilt over the copied items instead of being copied.
+         */
+        BlockTable(const BlockTable& other) : items_(other.items_)
+        {
+            rebuild_indexes();
+        }
+
+        /**
+         * @brief Copy assignment operator (rebuilds the reverse index over the copied items).
+         */
+        BlockTable& operator=(const BlockTable& other)
+        {
+            if ( this != &other )
+            {
+                indexes_.clear();
+                items_ = other.items_;
+                rebuild_indexes();
+            }
+            return *this;
+        }
+
+        /**
          * @brief Find if a key value is in the list
          * 
          * @param key the key value to search for.
@@ -220,6 +243,17 @@ namespace CDNS {
             res -= 1;
             indexes_[KeyRef<K>(items_.back().key())] = res;
             return res;
+        }
+
+        /**
+         * @brief Rebuild the reverse index so that its keys reference this table's own items.
+         */
+        void rebuild_indexes()
+        {
+            indexes_.clear();
+            CDNS::index_t pos = 0;
+            for ( const auto& item : items_ )
+                indexes_[KeyRef<K>(item.key())] = pos++;
         }
 
         std::deque<T> items_;
